@@ -63,6 +63,7 @@ def check(repo, res, tier):
     res.assumptions += ['quantities are whole multiples of the unit (float rounding of round() not decided)',
                         'worlds: minutes, hours, two custom integers, seconds, an unknown spelling']
     agree = {}
+    rounded = set()
     for q, tab in TABLE.items():
         f = repo.func(q)
         paths = cached_paths(f)
@@ -133,6 +134,15 @@ def check(repo, res, tier):
                             env.pop(n.target.id, None)
                         for site, param, expr, key, direction in sites_in(repo, fr, n, tab):
                             a = affine(canon, unwrap(sub(expr)), fr, dict(aenv, **num_env(env)))
+                            if direction == DOWN and unwrap(expr) is not expr and m not in (None, 1) and (
+                                    site, param) not in rounded:
+                                # a time divided by the factor and then rounded is no longer that time
+                                rounded.add((site, param))
+                                res.bad('C16.K2', f, n, '%s %s is rounded after the division' % (site, param),
+                                        '%s.%s is %s: a start time or duration that is not a whole number of timesteps is moved '
+                                        '(an observation can begin before its planned start, or last another time than '
+                                        'configured) -- only multiplied quantities may be rounded' % (
+                                            site, param, short(ast.unparse(expr), 60)))
                             mine.append(((site, param, key, direction, id(n)), (a, n, p)))
                 if not feasible:
                     continue
